@@ -73,6 +73,7 @@ def build_scratch(out, only=None, canary=False):
             raise LostAnchor('source file missing: src/%s' % rel)
         F = FileSplice(rel, open(p).read(), stats)
         mod.apply(F)
+        F.wrap_simple_consts()
         stats.index = getattr(stats, 'index', []) + index_file(F, stats.records)
         text = F.s
         if canary:
